@@ -468,7 +468,9 @@ def _bytes_decode(I, args, kwargs):
     return SStr(I.fresh("decoded", z3.StringSort()))
 
 
-def parse_response_contract(pkg, doc, opid, responses, version, entry="_parse_response"):
+def parse_response_contract(pkg, doc, opid, responses, version, entry="_parse_response", unspecified=()):
+    """unspecified: status intervals the contract says nothing about (e.g. codes covered only by a range key such as 2XX, which
+    this generator may or may not support): the 'undocumented status' case ranges over the codes outside them"""
     comps = doc["components"]["schemas"]
 
     def resolve_resp(r):
@@ -495,6 +497,8 @@ def parse_response_contract(pkg, doc, opid, responses, version, entry="_parse_re
             for c in codes:
                 I.assume(status.t != c)
             I.assume(z3.And(status.t >= 100, status.t <= 599))
+            for lo, hi in unspecified:
+                I.assume(z3.Or(status.t < lo, status.t > hi))
             ctype = schema = None
         wb = fragments.WireBuilder(I, comps)
         json_value = None
